@@ -134,6 +134,21 @@ def _factory(arg):
     return res
 
 
+def _factory_session(seq):
+    """Named grids constructed one after the other in one process, sizes going down and up again: the point count of a
+    name does not depend on what was constructed before."""
+    res = Result()
+    before = []
+    for std, role in seq:
+        msgs = factory_count(std, role)
+        case = {"factory": std, "role": role, "after": [list(x) for x in before]}
+        res.case(sample=case, nontrivial=True, key=["factory_session", std, role, len(before)], classes=["factory", "factory_session"])
+        if msgs:
+            res.violation(case, "; ".join(msgs) + f" (constructed after {before})")
+        before.append((std, role))
+    return res
+
+
 def _factory_chunk(items):
     return merge_results([_factory(it) for it in items])
 
@@ -164,6 +179,8 @@ def _hyp_shard(arg):
 
 def replay(case):
     if "factory" in case:
+        for std, role in case.get("after", []):      # reproduce the process history
+            factory_count(std, role)
         return factory_count(case["factory"], case["role"])
     return judge(case["name"], case["role"])[0]
 
@@ -213,6 +230,11 @@ def run(tier):
     sweep = [(f"fulldiv_{n}", "b") for n in range(2, sweep_to + 1) if n not in FULLDIV_SIZES and (f"fulldiv_{n}", "b") not in todo]
     todo += sweep
     results += pmap(_factory_chunk, [todo[i::64] for i in range(64)])
+    sessions = [[("fulldiv_40", "b"), ("fulldiv_8", "b"), ("fulldiv_40", "b")], [("fulldiv_8", "b"), ("fulldiv_40", "b"), ("fulldiv_8", "b")],
+                [("cube4D_30", "b"), ("cube4D_7", "b"), ("cube4D_30", "b")], [("randomQ_30", "b"), ("randomQ_6", "b"), ("randomQ_30", "b")],
+                [("ico_42", "o"), ("ico_5", "o"), ("ico_43", "o"), ("ico_5", "o")], [("cube3D_26", "o"), ("cube3D_4", "o"), ("cube3D_27", "o")],
+                [("randomS_30", "o"), ("randomS_4", "o"), ("randomS_30", "o")]]
+    results += pmap(_factory_session, sessions)
     results += pmap(_hyp_shard, [(s, (2000 if tier == "quick" else 40000) // 16) for s in range(16)])
     res = merge_results(results)
     if tier == "thorough":
@@ -221,7 +243,7 @@ def run(tier):
     res.violations.sort(key=lambda v: len(str(v["case"])))
     rule = (f"exhaustive: all names of 1..{max_len} tokens over the {len(tokens)}-token alphabet {tokens} for both roles "
             f"(names with a dimension tag skipped as unspecified); every distinct accepted standard name with N<={limit} "
-            f"(and every fulldiv name, and fulldiv with every N in 2..{sweep_to}) is constructed by the factory; plus Hypothesis names from arbitrary text tokens. "
+            f"(and every fulldiv name, and fulldiv with every N in 2..{sweep_to}) is constructed by the factory; names are also constructed in sessions (one process, sizes going down and up again: fulldiv 40-8-40, 8-40-8, ...); plus Hypothesis names from arbitrary text tokens. "
             f"Non-trivial = multi-token or accepted names; distinct = distinct (name, role).")
     return res, rule, {"exhaustive": True,
                        "extra": {"exhaustive_part_evaluations": n_exh, "factory_constructions": len(todo),
